@@ -1,7 +1,10 @@
 ---- MODULE AgentClose_MC ----
 EXTENDS AgentClose, TLC, Json
-MCAgents == {[kind |-> "self", at |-> a, slow |-> FALSE] : a \in 1..5}
-            \cup {[kind |-> k, at |-> 0, slow |-> s] : k \in {"eof", "term"}, s \in BOOLEAN}
-            \cup {[kind |-> "stubborn", at |-> 0, slow |-> FALSE]}
-Export == (phase = 1 /\ ~exited /\ ~returned /\ ~waited) => PrintT(<<"BEHAVIOUR", ToJson(agent)>>)
+Behaviours == {[kind |-> "self", at |-> a, slow |-> FALSE] : a \in 1..5}
+              \cup {[kind |-> k, at |-> 0, slow |-> s] : k \in {"eof", "term"}, s \in BOOLEAN}
+              \cup {[kind |-> "stubborn", at |-> 0, slow |-> FALSE]}
+MCAgents == {[kind |-> b.kind, at |-> b.at, slow |-> b.slow, child |-> c, recv |-> r] :
+               b \in Behaviours, c \in {"none", "inherit", "own", "dies"}, r \in BOOLEAN}
+Export == (phase = 1 /\ ~exited /\ ~returned /\ ~waited /\ copyDone = ~agent.recv /\ childAlive = (agent.child # "none"))
+          => PrintT(<<"BEHAVIOUR", ToJson(agent)>>)
 ====
